@@ -18,6 +18,8 @@ from ..evidence import enum_evidence
 from .c03 import sym_key, KEY, WRONG_KEY, KID, SRC, NODE, SEC_REASONS
 from . import c03, c16
 
+import itertools
+
 PROP = 'C12'
 
 
@@ -315,6 +317,17 @@ def run_block(params, known):
                 keys.add('%s/%s/%s/%s' % (block, mname, accept, report))
                 if len(samples) < 2 and mname in ('duplicate-result-ids', 'cose-too-few-items'):
                     samples.append(dict(label=label, octets=data.hex()))
+    if block == 'bcb':
+        # a bundle whose security blocks all verify is delivered: confidentiality blocks over empty
+        # and one-octet contents, one and two targets
+        for (length, with_ext) in itertools.product((0, 1), (False, True)):
+            for accept in (False, True):
+                data = c16.source_encrypt('enc0', length, with_ext)
+                label = dict(block=block, malformation='none', report=True, plaintext_length=length, two_targets=with_ext)
+                (found, dlv) = judge_case(label, data, 'right', accept, 'deliver', True, c16.plaintext(length))
+                take(found)
+                count += 1
+                keys.add('bcb/valid-len%d-ext%s/%s' % (length, with_ext, accept))
     kn, out_v = [], []
     for v in violations:
         ent = known.match(v) if known is not None else None
